@@ -625,6 +625,28 @@ class Interp:
         fi = FuncInfo(st.name, st, self.frame.module, None, "function")
         self.frame.locals[st.name] = FuncVal(fi, closure=self.frame)
 
+    def exec_Match(self, st):
+        """match / case restricted to class patterns without sub-patterns (`case str():`, `case Sequence():`), literal
+        patterns and the wildcard: anything else is outside the subset"""
+        subject = self.eval(st.subject)
+        for case in st.cases:
+            pat = case.pattern
+            if case.guard is not None:
+                raise Unsupported("match guard")
+            if isinstance(pat, ast.MatchClass) and not pat.patterns and not pat.kwd_patterns:
+                ok = self.decide(self.builtins["isinstance"].fn(subject, self.eval(pat.cls)))
+            elif isinstance(pat, ast.MatchAs) and pat.pattern is None:
+                if pat.name:
+                    self.frame.locals[pat.name] = subject
+                ok = True
+            elif isinstance(pat, ast.MatchValue):
+                ok = self.decide(self.B.equal(self, subject, self.eval(pat.value)))
+            else:
+                raise Unsupported("match pattern " + type(pat).__name__)
+            if ok:
+                self.exec_block(case.body)
+                return
+
     def exec_Delete(self, st):
         for t in st.targets:
             if isinstance(t, ast.Subscript):
